@@ -477,6 +477,9 @@ func (c *FCGIClient) Request(p map[string]string, req io.Reader) (resp *http.Res
 	} else {
 		resp.StatusCode = http.StatusOK
 	}
+	// Status is a CGI field addressed to the server (RFC 3875
+	// section 6.3.3), not a header of the response
+	resp.Header.Del("Status")
 
 	// TODO: fixTransferEncoding ?
 	resp.TransferEncoding = resp.Header["Transfer-Encoding"]
